@@ -639,6 +639,19 @@ func (r *Run) exec(fr *frame, b *ssa.BasicBlock, skipPhis bool) (string, []Val) 
 				next = b.Succs[0]
 			case *ssa.If:
 				cv := r.val(fr, x.Cond)
+				if oq, isOpq := cv.(VOpq); isOpq {
+					// the result of a call the rule does not know, used only to guard a panic
+					p0, p1 := panicsOnly(b.Succs[0]), panicsOnly(b.Succs[1])
+					if p0 != p1 {
+						r.out.Assumed = append(r.out.Assumed, oq.Name)
+						if p0 {
+							next = b.Succs[1]
+						} else {
+							next = b.Succs[0]
+						}
+						continue
+					}
+				}
 				if at, isAtom := cv.(VAtom); isAtom {
 					// an assertion — a condition the world says nothing about, one of whose outcomes does nothing
 					// but panic — is taken to hold: the rules are about what the code does when it does not
@@ -1109,6 +1122,8 @@ func (r *Run) not(v Val) Val {
 		return boolConst(!constant.BoolVal(b.V))
 	case VAtom:
 		return VAtom{b.Key, !b.Neg}
+	case VOpq:
+		return VOpq{"!" + b.Name}
 	}
 	r.fail("negation of %s", render(v))
 	return nil
